@@ -61,6 +61,18 @@ CLAIMED = {
   "are modelled, not verified; \\w and \\s restricted to ASCII; autoescape off (C05). All theorems closed under the global context.",
   "Coq proof (structural scanners with skip counters, induction over messages) + model/implementation correspondence by vm_compute",
   "DESIGN.md §6 C26"),
+ "C25": (
+  "Coq theorems, one per contract clause, about Gallina models of the filters: truncate (all strings, all integer limits, all ellipses; "
+  "pre-fix code refuted), truncatewords (at most max(n,1) words), split/join round trip under exactly the guard the code needs "
+  "(_partial; the two excluded shapes are refuted by witness and recorded as known findings), sort (ascending permutation, generic "
+  "stable sort by key), uniq, compact, reverse, concat, where/reject partition, exact integer arithmetic with floor division/modulo and "
+  "zero-divisor errors, default, size, slice (from start / from end), first/last. Tied to /repo by ~6500 exhaustive pool cases per run "
+  "through templates `{{ v | f: args | json }}` evaluated inside Coq, plus contract predicates written from the documentation.",
+  "Trusted: Coq kernel+vm_compute; harness pools/printers/JSON observation; Python str/list methods, sorted, int(), Decimal(str(float)) "
+  "and float repr on short decimals are modelled, not verified; binary float division/modulo, non-ASCII case mapping and exact-half "
+  "rounding are outside the model. All theorems closed under the global context.",
+  "Coq proof (list induction, Permutation/StronglySorted, lia) + model/implementation correspondence by vm_compute",
+  "DESIGN.md §6 C25"),
 }
 
 PENDING_REASON = "not yet built in this round (planned: DESIGN.md §6/§9); no check is claimed for it yet"
